@@ -6,7 +6,11 @@ prop("C05", "exploration",
      "account with its own home directory and file; two thirds of the histories play with two or three names of one such family, so that what "
      "is listed or granted for one name is asked for as the other; the model keys files and grants by the exact string; four fixed X25519 keys): write a user's authorized_keys file from a line grammar (canonical entry, "
      "entry with surrounding blanks, blank, whitespace, comment incl. commented-out entry, wrong prefix, truncated / over-long / "
-     "non-base64 payload, 31- and 33-byte key, line > 64 KiB, trailing text, two entries on one line, arbitrary bytes, BOM; LF or "
+     "non-base64 payload, 31- and 33-byte key, line > 64 KiB, trailing text, two entries on one line, arbitrary bytes, BOM, "
+     "BUFFER-ALIGNED line = ONE physical line holding 2..3 valid entries of different fixture keys padded with blanks or tabs so that entry i "
+     "starts exactly at byte i*P of the line, P in {4096, 8192, 65536, 512, 1024} (the sizes in which bufio readers / scanners hand out or "
+     "grow their data; last piece padded to P or not) - the format is line based, one entry per physical line, so the reference parser reads "
+     "it as one malformed entry that lists none of the embedded keys, and logins present each of them; LF or "
      "CRLF; with or without final newline), remove it, put a directory in its place, switch authgrants on/off, add a grant "
      "(user, key, type, times), log in (the decision sequence of hopSession.checkAuthorization executed with the real AuthorizeKey / "
      "AuthorizeKeyAuthGrant), or call AuthorizeKeyAuthGrant on its own. A third of the logins do not present a fixture key but a key "
